@@ -1,3 +1,4 @@
+import BigDec.Model.ToF64
 import BigDec.Model.Round
 import BigDec.Model.Arith
 import BigDec.Spec.Round
@@ -41,7 +42,7 @@ def handle (op : String) (args : List String) (impl : String) : Verdict :=
   | "withprec", [a, p] =>
     match parseDec? a, parseNat? p with
     | some a, some p =>
-      C06.judgeExact (a.withPrec estF64 p) (Spec.roundToPrec a p .HalfUp) impl
+      C06.judgeExact (a.withPrec F64.estCode p) (Spec.roundToPrec a p .HalfUp) impl
         ("withprec:" ++ precRegime a p ++ (if a.int < 0 then ":neg" else ":pos")) (a.int == 0 || p ≥ Spec.numDigits a.int.natAbs)
     | _, _ => badInput "withprec args"
   | _, _ => badInput ("C07 op " ++ op)
